@@ -849,3 +849,54 @@ def sp_colcnt(I, st, args, kwargs):
     df, c, v = args
     col = I.stubs.frame_column(I, st, df, c).fields['values']
     return VInt(cnt_fn(col.ek)(col.arr, to_term(v, col.ek), col.length))
+
+
+# ----------------------------------------------------------------------------- feature summary (C18)
+def _sum_syms(I):
+    from . import sym as _sym
+    if not hasattr(I.speclib, '_SUMSYM'):
+        P = _sym.PSTR
+        AP = z3.ArraySort(I_, P)
+        d = I.stubs._psym()
+        SELCNT = z3.Function('selcnt', P, AP, AP, I_, I_)
+        lab, A, B = z3.Const('sl_lab', P), z3.Const('sl_A', AP), z3.Const('sl_B', AP)
+        dash = _sym.pstr_lit('-')
+
+        def sel(i):
+            return z3.Or(lab == d['SPLIT_PART'](A[i], dash, 0), lab == d['SPLIT_PART'](B[i], dash, 0))
+        axiom('selcnt.base', z3.ForAll([lab, A, B], SELCNT(lab, A, B, 0) == 0, patterns=[SELCNT(lab, A, B, 0)]), 'selcnt')
+        axiom('selcnt.step', z3.ForAll([lab, A, B, _m], z3.Implies(_m > 0, SELCNT(lab, A, B, _m) == SELCNT(lab, A, B, _m - 1) + z3.If(sel(_m - 1), 1, 0)),
+                                       patterns=[SELCNT(lab, A, B, _m)]), 'selcnt')
+        lemma('selcnt_mono',
+              z3.ForAll([lab, A, B, _i, _m], z3.Implies(z3.And(0 <= _i, _i <= _m), z3.And(
+                  SELCNT(lab, A, B, _i) <= SELCNT(lab, A, B, _m), SELCNT(lab, A, B, _i) >= 0,
+                  z3.Implies(z3.And(_i < _m, sel(_i)), SELCNT(lab, A, B, _i) < SELCNT(lab, A, B, _m)))),
+                  patterns=[z3.MultiPattern(SELCNT(lab, A, B, _i), SELCNT(lab, A, B, _m))]),
+              [(l_, z3.ForAll([lab, A, B], f)) for l_, f in _induction(
+                  lambda n: z3.ForAll([_i], z3.Implies(z3.And(0 <= _i, _i <= n), z3.And(
+                      SELCNT(lab, A, B, _i) <= SELCNT(lab, A, B, n), SELCNT(lab, A, B, _i) >= 0,
+                      z3.Implies(z3.And(_i < n, sel(_i)), SELCNT(lab, A, B, _i) < SELCNT(lab, A, B, n))))), _n)])
+        I.speclib._SUMSYM = SELCNT
+    return I.speclib._SUMSYM
+
+
+@spec('selcnt')
+def sp_selcnt(I, st, args, kwargs):
+    """selcnt(label, triplets, k): number of the first k rows whose A or B name (text before the first '-') is the label."""
+    lab, t, k = args
+    return VInt(_sum_syms(I)(lab.t, t.fields['A'].arr, t.fields['B'].arr, to_term(k, 'int')))
+
+
+@spec('name_prefix')
+def sp_name_prefix(I, st, args, kwargs):
+    from . import sym as _sym
+    return VStr(I.stubs._psym()['SPLIT_PART'](args[0].t, _sym.pstr_lit('-'), 0))
+
+
+@spec('median_of')
+def sp_median_of(I, st, args, kwargs):
+    """median_of(pairs, name): median of the scores paired with `name` in the list of [name, score] (pandas groupby.median)."""
+    pairs, name = args
+    t = I.stubs._pairs_to_table(I, st, pairs)
+    M = I.stubs._table_syms()
+    return VReal(M(t.fields['keys'].arr, t.fields['vals'].arr, pairs.length, name.t))
